@@ -7,8 +7,8 @@ wt=/tmp/seedtest-$pid-$$
 git -C /repo worktree add -q $wt HEAD || exit 2
 if ! git -C $wt apply $patch; then echo "PATCH-DOES-NOT-APPLY"; git -C /repo worktree remove --force $wt; exit 2; fi
 cd /verif
-echo "--- demo on unchanged /repo"; PYTHONPATH=/repo PYTHONHASHSEED=0 timeout 1200 /venv/bin/python -W ignore $demo > /tmp/seedtest-demo0.log 2>&1; echo "exit=$?"; tail -2 /tmp/seedtest-demo0.log
-echo "--- demo on changed tree"; PYTHONPATH=$wt PYTHONHASHSEED=0 timeout 1200 /venv/bin/python -W ignore $demo > /tmp/seedtest-demo1.log 2>&1; echo "exit=$?"; tail -3 /tmp/seedtest-demo1.log
+echo "--- demo on unchanged /repo"; PYTHONPATH=/repo PYTHONHASHSEED=0 timeout 1200 /venv/bin/python -W ignore $demo > /tmp/seedtest-demo0-$$.log 2>&1; echo "exit=$?"; tail -2 /tmp/seedtest-demo0-$$.log
+echo "--- demo on changed tree"; PYTHONPATH=$wt PYTHONHASHSEED=0 timeout 1200 /venv/bin/python -W ignore $demo > /tmp/seedtest-demo1-$$.log 2>&1; echo "exit=$?"; tail -3 /tmp/seedtest-demo1-$$.log
 for c in $pid "$@"; do
   for seed in 1 2 3; do
     echo "--- check $c quick seed $seed on changed tree"
@@ -18,4 +18,5 @@ for c in $pid "$@"; do
     [ "$rc" != "0" ] && break
   done
 done
+rm -f /tmp/seedtest-demo0-$$.log /tmp/seedtest-demo1-$$.log
 git -C /repo worktree remove --force $wt
